@@ -70,6 +70,7 @@ pub struct Interp<'tcx> {
     pub probes: Vec<Probe>,
     pub call_trace: BTreeMap<String, u64>,
     pub xof_counter: u32,
+    pub xof_reads: HashMap<u32, u32>,
     pub rng_mode: u8, // 0 = both outcomes, 1 = force Ok, 2 = force Err
     pub leaks: BTreeMap<String, String>,
     pub taint_track: bool,
@@ -132,6 +133,7 @@ impl<'tcx> Interp<'tcx> {
             probes: Vec::new(),
             call_trace: BTreeMap::new(),
             xof_counter: 0,
+            xof_reads: HashMap::new(),
             rng_mode: 0,
             leaks: BTreeMap::new(),
             taint_track: false,
